@@ -391,7 +391,11 @@ def SDOF_bellandMS(Sy, dt, sel_fn, phi_FDD, method="FSDD", cm=1, MAClim=0.85, DF
         elif method == "EFDD":
             SDOFbell += np.array(
                 [
-                    Sval[csm, csm, l_] if MAC(phi_FDD, Svec[csm, :, l_]) > MAClim else 0
+                    # S_val stores the square roots of the singular values (SD_svalsvec):
+                    # the SDOF bell is the spectral density itself
+                    Sval[csm, csm, l_] ** 2
+                    if MAC(phi_FDD, Svec[csm, :, l_]) > MAClim
+                    else 0
                     for l_ in range(int(idxlim[0]), int(idxlim[1]))
                 ]
             )
